@@ -56,6 +56,13 @@ func (v *value) Interface() any     { return v.value }
 func (v *value) Len() int           { return len(v.Children) }
 func (v *value) IsNil() bool        { return v.isNil }
 
+var (
+	fileType = reflect.TypeOf(ast.File{})
+
+	// Fields of ast.File that list nodes found under Decls once more.
+	derivedFileFields = map[string]bool{"Imports": true, "Unresolved": true}
+)
+
 func snapshot(v reflect.Value, cmap ast.CommentMap) (val *value) {
 	t := v.Type()
 
@@ -109,6 +116,17 @@ func snapshot(v reflect.Value, cmap ast.CommentMap) (val *value) {
 	case reflect.Struct:
 		children := make([]*value, v.NumField())
 		for i := 0; i < v.NumField(); i++ {
+			if t == fileType && derivedFileFields[t.Field(i).Name] {
+				// These fields repeat nodes that the snapshot already
+				// holds under Decls. Diffing them a second time, as a
+				// list of their own, reports everything that stands
+				// between two of them as changed when one goes away:
+				// deleting an import took the doc comment of the next
+				// import declaration with it (for import "C", the cgo
+				// preamble).
+				children[i] = &value{t: t.Field(i).Type, isNil: true}
+				continue
+			}
 			children[i] = snapshot(v.Field(i), cmap)
 		}
 		return &value{
